@@ -29,6 +29,11 @@ def sig_letter_ok(sig, text):
 
 # ------------------------------------------------------------ worker side
 
+SRC_IMPORTS = """From MV Require Import Base Regex Typing Py PyObj Glue SrcStructRun.
+From Coq Require Import String.
+"""
+
+
 def impl_structure(case):
     from harness import implutil
     return implutil.get_class(case["cls"]).structure()
@@ -146,6 +151,22 @@ def run(ctx):
     for b in bad:
         ctx.disagreements.append({"case": scases[b]["cls"], "impl": texts[b],
                                   "observable": "AbstractPart.structure() vs Typing.part_structure", "model_fn": "Typing.part_structure"})
+    # the same texts against AbstractPart.structure() / the generic structure() as regenerated from the source
+    sterms = []
+    sidx = []
+    for k, (c, t) in enumerate(zip(scases, texts)):
+        sp = c["cls"]
+        if '"' in t or any(ord(ch) > 126 for ch in t):
+            continue
+        sterms.append('(%s, %s, "%s"%%string, "%s"%%string, "%s"%%string)' % (
+            gens.c_role(sp["role"]), pattern.c_enzyme(c["enz"]), sp["sig"][0], sp["sig"][1], t))
+        sidx.append(k)
+    bad = common.coq_eval_cases(ctx, "structsrc", SRC_IMPORTS, sterms, "check_struct_src", per_file=300)
+    for b in bad:
+        k = sidx[b]
+        ctx.disagreements.append({"case": scases[k]["cls"], "impl": texts[k],
+                                  "observable": "AbstractPart.structure() text vs the text computed by structure() as "
+                                                "regenerated from the source", "model_fn": "Gen/Src.v AbstractPart_structure"})
     # (b) verdicts
     subjects = []
     kitparts = [c for c in ctx.tables["classes"] if not c["abstract"] and c["signature"] is not None
